@@ -143,7 +143,7 @@ func ToCommandLine(wf WireFormat, resolveIds bool) (rule string, err error) {
 	// Detect if rule is a watch.
 	// Must have all syscalls and perm field. Only other valid fields are
 	// dir, path and key, according to auditctl source
-	if permIdx, ok := existingFields[permField]; ok && r.isFileWatch() {
+	if permIdx, ok := existingFields[permField]; ok && addFlag == "-a" && r.isFileWatch() {
 		extraFields, pos := false, 0
 		var path, key string
 	loop:
